@@ -123,6 +123,17 @@ class _Subst(ast.NodeTransformer):
             return copy.deepcopy(self.env[d])
         return self.generic_visit(node)
 
+    def visit_Call(self, node: ast.Call):
+        node = self.generic_visit(node)
+        # beta reduction: a call of a lambda the name was bound to (`w = lambda i, j: a[i] - b[j]` ... `w(r, c)`)
+        f = node.func
+        if isinstance(f, ast.Lambda) and not node.keywords and not any(isinstance(a, ast.Starred) for a in node.args) \
+                and not f.args.vararg and not f.args.kwarg and not f.args.kwonlyargs and len(f.args.args) + len(f.args.posonlyargs) == len(node.args):
+            names = [a.arg for a in f.args.posonlyargs + f.args.args]
+            sub = _Subst(dict(zip(names, node.args)))
+            return sub.visit(copy.deepcopy(f.body))
+        return node
+
     def visit_Lambda(self, node):
         # substitute free names only
         bound = {a.arg for a in node.args.args + node.args.kwonlyargs + node.args.posonlyargs}
@@ -573,6 +584,15 @@ class FuncFacts:
             return self._walk_block(stmt.body, env, facts, loops, tries, handlers)
         if isinstance(stmt, (ast.FunctionDef, ast.AsyncFunctionDef, ast.ClassDef)):
             env.pop(stmt.name, None)
+            # a local expression function (`def w(i, j): return a[i] - b[j]`) is the lambda of its return expression
+            if isinstance(stmt, ast.FunctionDef) and not stmt.decorator_list and not stmt.args.vararg and not stmt.args.kwarg and not stmt.args.kwonlyargs \
+                    and not stmt.args.defaults:
+                b = [x for x in stmt.body if not (isinstance(x, ast.Expr) and isinstance(x.value, ast.Constant))]
+                if len(b) == 1 and isinstance(b[0], ast.Return) and b[0].value is not None:
+                    lam = ast.Lambda(args=copy.deepcopy(stmt.args), body=copy.deepcopy(b[0].value))
+                    for a_ in lam.args.args + lam.args.posonlyargs:
+                        a_.annotation = None
+                    env[stmt.name] = resolve(ast.fix_missing_locations(ast.copy_location(lam, stmt)), env)
             return env, facts
         if isinstance(stmt, (ast.Import, ast.ImportFrom)):
             for a in stmt.names:
